@@ -72,30 +72,37 @@ pub struct VecShared {
     pub ballast: usize,
     /// number of BTouch operations in the driver's programs
     pub touches: usize,
+    pub salt: usize,
 }
 
 pub const BALLAST_AMOUNT: f64 = 3.0;
 
-pub fn ballast_key(i: usize) -> String {
-    format!("z{:02}", i)
+/// Name of ballast child i. The children map is keyed by the hash of the label values and iterates in hash order, so
+/// a different `salt` arranges the two program keys differently among the ballast children.
+pub fn ballast_key(i: usize, salt: usize) -> String {
+    if salt == 0 {
+        format!("z{:02}", i)
+    } else {
+        format!("z{}_{:02}", (b'a' + (salt % 26) as u8) as char, i)
+    }
 }
 
 pub const PRE_AMOUNT: f64 = 1024.0;
 
 impl VecShared {
     pub fn new(f: VFlavour, start: Start) -> VecShared {
-        VecShared::with_ballast(f, start, 0, 0)
+        VecShared::with_ballast(f, start, 0, 0, 0)
     }
 
-    pub fn with_ballast(f: VFlavour, start: Start, ballast: usize, touches: usize) -> VecShared {
+    pub fn with_ballast(f: VFlavour, start: Start, ballast: usize, touches: usize, salt: usize) -> VecShared {
         let v = match f {
             VFlavour::IntCounterList => TheVec::I(IntCounterVec::new(Opts::new("v", "h"), &["l"]).unwrap()),
             VFlavour::CounterMap => TheVec::C(CounterVec::new(Opts::new("v", "h"), &["l"]).unwrap()),
             VFlavour::HistogramList => TheVec::H(HistogramVec::new(HistogramOpts::new("v", "h").buckets(vec![1.0]), &["l"]).unwrap()),
         };
-        let mut sh = VecShared { v, kept: None, ballast, touches };
+        let mut sh = VecShared { v, kept: None, ballast, touches, salt };
         for i in 0..ballast {
-            sh.get_key(&ballast_key(i)).unwrap().upd(BALLAST_AMOUNT);
+            sh.get_key(&ballast_key(i, salt)).unwrap().upd(BALLAST_AMOUNT);
         }
         if start != Start::Empty {
             let h = sh.get(0).unwrap();
@@ -170,7 +177,8 @@ impl VecShared {
             // the ballast children are judged right here: each exactly once, holding its setup amount plus at most the
             // touches the programs make (the exact final amounts are checked at quiescence by `check`)
             let (b, rest): (Vec<_>, Vec<_>) = kids.into_iter().partition(|(k, _)| k.starts_with('z'));
-            let want: Vec<String> = (0..self.ballast).map(ballast_key).collect();
+            let mut want: Vec<String> = (0..self.ballast).map(|i| ballast_key(i, self.salt)).collect();
+            want.sort();
             let got: Vec<String> = b.iter().map(|(k, _)| k.clone()).collect();
             if got != want {
                 return Val::S(format!("ballast children shown: {:?}, expected each of {} exactly once", got, self.ballast));
@@ -193,6 +201,8 @@ pub struct VecDriver {
     pub programs: Vec<Vec<VOp>>,
     /// children created before the threads start, besides what `start` says (programs of such drivers do not reset)
     pub ballast: usize,
+    /// naming variant of the ballast children (see `ballast_key`)
+    pub salt: usize,
 }
 
 impl VecDriver {
@@ -202,6 +212,7 @@ impl VecDriver {
             start: serde_json::from_value(v["start"].clone()).ok()?,
             programs: serde_json::from_value(v["programs"].clone()).ok()?,
             ballast: v["ballast"].as_u64().unwrap_or(0) as usize,
+            salt: v["salt"].as_u64().unwrap_or(0) as usize,
         })
     }
 }
@@ -225,7 +236,7 @@ impl Driver for VecDriver {
     type Shared = VecShared;
     fn name(&self) -> String {
         if self.ballast > 0 {
-            format!("{:?} {:?}+{} children {:?}", self.flavour, self.start, self.ballast, self.programs)
+            format!("{:?} {:?}+{} children{} {:?}", self.flavour, self.start, self.ballast, if self.salt > 0 { format!(" (naming {})", self.salt) } else { String::new() }, self.programs)
         } else {
             format!("{:?} {:?} {:?}", self.flavour, self.start, self.programs)
         }
@@ -235,7 +246,7 @@ impl Driver for VecDriver {
     }
     fn setup(&self) -> VecShared {
         let touches = self.programs.iter().flatten().filter(|o| matches!(o, VOp::BTouch(_))).count();
-        VecShared::with_ballast(self.flavour, self.start, self.ballast, touches)
+        VecShared::with_ballast(self.flavour, self.start, self.ballast, touches, self.salt)
     }
     fn body(&self, t: usize, sh: &VecShared, rec: &Recorder) {
         let mut cur: Option<Handle> = None;
@@ -282,7 +293,7 @@ impl Driver for VecDriver {
                     });
                 }
                 VOp::BTouch(i) => {
-                    rec.call("btouch", Val::I(i as i64), || match sh.get_key(&ballast_key(i)) {
+                    rec.call("btouch", Val::I(i as i64), || match sh.get_key(&ballast_key(i, sh.salt)) {
                         Ok(h) => {
                             h.upd(1.0);
                             Val::B(true)
@@ -300,7 +311,7 @@ impl Driver for VecDriver {
     }
 
     fn spec(&self) -> serde_json::Value {
-        serde_json::json!({"kind": "vec", "flavour": self.flavour, "start": self.start, "programs": self.programs, "ballast": self.ballast})
+        serde_json::json!({"kind": "vec", "flavour": self.flavour, "start": self.start, "programs": self.programs, "ballast": self.ballast, "salt": self.salt})
     }
 
     fn check(&self, sh: &VecShared, x: &Execution) -> Result<String, (String, String)> {
